@@ -33,6 +33,7 @@ import CdnsVerif.Model.File
 import CdnsVerif.Proofs.Resolve
 import CdnsVerif.Proofs.ResolveAec
 import CdnsVerif.Proofs.BuilderTime
+import CdnsVerif.Proofs.BuilderBounds
 import CdnsVerif.Props.C06
 import CdnsVerif.Props.C17
 
@@ -194,5 +195,31 @@ open CdnsVerif.Model.Builder CdnsVerif.Model.Timestamp in
 example : (build ⟨1 + 4, 0, 0, 0, 1000⟩ [.qr { ts := some ⟨7, 5⟩, clientPort := some 1 } none, .qr { ts := some ⟨3, 9⟩, clientPort := some 2 } none]).earliest = ⟨3, 9⟩ ∧
     (build ⟨1 + 4, 0, 0, 0, 1000⟩ [.qr { ts := some ⟨7, 5⟩, clientPort := some 1 } none, .qr { ts := some ⟨3, 9⟩, clientPort := some 2 } none]).qrs.map (·.ts) = [some ⟨7, 5⟩, some ⟨3, 9⟩] := by
   decide
+
+open CdnsVerif.Model.Builder CdnsVerif.Model.Schema CdnsVerif.Model.Structs CdnsVerif.Model.File in
+/-- **Built blocks round-trip, for all records.**  For every hint setting and every sequence of buffered records whose
+    members fit the widths of the C++ members (`RecOk`: ports below 2^16, flags below 2^8, strings shorter than 2^64 …), with
+    fewer than 2^64 records and at most 2^32 entries in each table of the block (the range of `index_t`), the file
+    `83 65 "C-DNS"`, preamble, `9f`, the block as `CdnsBlock::write` lays it out, `ff` is read back by the reader as exactly
+    that preamble and that block, consuming every byte.  No executable side condition is left: the block's membership in the
+    round-trip domain is proved (`build_conforms`), not checked per input. -/
+theorem built_file_roundtrip (h : Hints) (recs : List Rec) (pi : Option Nat) (pv : Val) (hp : Conforms filePreamble pv)
+    (hrecs : ∀ r ∈ recs, RecOk r) (hn : recs.length < 2 ^ 64) (hl : ∀ t, len (build h recs) t ≤ 2 ^ 32) (hpi : ULt 32 pi) :
+    ∃ fuel₀, ∀ fuel, fuel₀ ≤ fuel →
+      (readFile fuel).run (fileBytes pv [toVal (build h recs) pi h.tps]) = .ok ((pv, .list [toVal (build h recs) pi h.tps]), []) := by
+  apply file_roundtrip pv _ hp
+  simp only [ConformsList]
+  exact ⟨build_conforms h recs pi hrecs hn hl hpi, trivial⟩
+
+open CdnsVerif.Model.Builder in
+/-- the hypotheses are met by an ordinary record (non-vacuity) -/
+example : RecOk (.qr { clientPort := some 53, queryName := some [3, 119, 119, 119, 0], responseDelay := some (-5) } none) := by
+  refine ⟨⟨?_, ?_, ?_, ?_, ?_, ?_, ?_, ?_, ?_, ?_, ?_, ?_, ?_, ?_, ?_, ?_, ?_, ?_, ?_, ?_, ?_, ?_, ?_, ?_, ?_, ?_, ?_, ?_, ?_, ?_, ?_, ?_, ?_, ?_,
+    ?_, ?_, ?_, ?_, ?_⟩, fun s hs => by cases hs⟩
+  all_goals first
+    | (intro x hx; cases hx; done)
+    | (intro x hx; cases hx; decide)
+    | (intro x hx; cases hx; exact ⟨by decide, fun b hb => by simp at hb; omega⟩)
+    | (intro x hx; cases hx; exact ⟨by decide, by decide⟩)
 
 end CdnsVerif.Props.C01
